@@ -61,8 +61,22 @@ def _evaluate_in(wt, sd, pid, k, tier, also, head):
     out = {"property": pid, "k": seed_index(k), "repo_head": head[:7]}
     rc, o = sh("git apply %s" % os.path.join(sd, "patch.diff"), cwd=wt)
     if rc != 0:
-        out["error"] = "patch does not apply: " + o[-300:]
-        return out
+        # a later `fix:` commit changed lines next to the seeded change: re-base the patch by a three-way merge on the
+        # blobs it names (they are in /repo's history); the re-based diff replaces the stored one, the original is kept
+        rc3, o3 = sh("git apply --3way %s" % os.path.join(sd, "patch.diff"), cwd=wt)
+        conflict = sh("git diff --name-only --diff-filter=U", cwd=wt)[1].strip()
+        if rc3 != 0 or conflict:
+            sh("git reset -q --hard HEAD", cwd=wt)
+            out["error"] = "patch does not apply (also not with --3way): " + (o3 or o)[-300:]
+            return out
+        sh("git reset -q", cwd=wt)
+        rebased = sh("git diff", cwd=wt)[1]
+        out["rebased_onto"] = head[:7]
+        if os.path.dirname(sd).endswith("seeded") and sd.startswith(VERIF):
+            if not os.path.exists(os.path.join(sd, "patch.orig.diff")):
+                shutil.copy(os.path.join(sd, "patch.diff"), os.path.join(sd, "patch.orig.diff"))
+            with open(os.path.join(sd, "patch.diff"), "w") as f:
+                f.write(rebased)
     try:
         rc1, o1 = sh("/venv/bin/python -W ignore %s" % os.path.join(sd, "demo.py"), cwd=wt, env=env, timeout=900)
         out["demo_with_patch_rc"] = rc1
@@ -78,7 +92,7 @@ def _evaluate_in(wt, sd, pid, k, tier, also, head):
             shutil.rmtree("/tmp/seeded-replays-%s-%s" % (pid, k), ignore_errors=True)
         out["checks"] = checks
     finally:
-        sh("git checkout -- .", cwd=wt)
+        sh("git reset -q --hard HEAD", cwd=wt)
     rc0, o0 = sh("/venv/bin/python -W ignore %s" % os.path.join(sd, "demo.py"), cwd=wt, env=env, timeout=900)
     out["demo_without_patch_rc"] = rc0
     out["confirmed"] = (out["demo_with_patch_rc"] not in (0,)) and rc0 == 0 and "123 passed" in out["suite_with_patch"]
@@ -98,7 +112,7 @@ def main():
     if "--also" in args:
         i = args.index("--also"); also = args[i + 1].split(","); del args[i:i + 2]
     for pid in args:
-        for k in ((1, 2) if ROUND > 1 else (1, 2, 3, 4)):
+        for k in ((1, 2) if ROUND > 1 else range(1, 9)):
             r = evaluate(pid, k, tier, sorted(set(also + ALSO.get("%s-%d" % (pid, seed_index(k)), []))))
             if r is None:
                 continue
